@@ -495,6 +495,9 @@ class _Sym(Flow):
         self.member_tests = {}
         self._loops = {}
         self._tcache = {}
+        self.ret_pairs = set()
+        self.outer_try = False
+        self._forks = {}
 
     # ------------------------------------------------------------ terms
     def T(self, e, st):
@@ -692,6 +695,14 @@ class _Sym(Flow):
 
     def on_stmt(self, s, st):
         if isinstance(s, ast.Assign):
+            forks = self._fork_call(s.value, st) if isinstance(s.value, ast.Call) else None
+            if forks:
+                outs = []
+                for ns, vt in forks:
+                    for t in s.targets:
+                        ns = self._bind(t, vt, ns, s)
+                    outs.append(ns)
+                return tuple(outs)
             vt = self.T(s.value, st)
             for t in s.targets:
                 st = self._bind(t, vt, st, s)
@@ -716,8 +727,57 @@ class _Sym(Flow):
         return (st,)
 
     def on_return(self, node, st):
-        self.returns.add(self.T(node.value, st) if node.value is not None else CNONE)
+        forks = self._fork_call(node.value, st) if isinstance(node.value, ast.Call) else None
+        if forks:
+            for ns, t in forks:
+                self.returns.add(t)
+                self.ret_pairs.add((t, ns))
+            return tuple(ns for ns, _t in forks)
+        t = self.T(node.value, st) if node.value is not None else CNONE
+        self.returns.add(t)
+        self.ret_pairs.add((t, st))
         return (st,)
+
+    def _fork_call(self, call, st):
+        """call of a helper of the model whose result depends on the path taken inside it: interpret the helper in place
+        (path facts and recorded events carry over) -> [(state after, result term)], or None when not applicable"""
+        k = (id(call), st)
+        if k in self._forks:
+            return self._forks[k]
+        self._forks[k] = None
+        rc = self.resolve_call(call, st)
+        if rc is None or rc[2] is None:
+            return None
+        g, recv, A = rc
+        if not (self.an.inlineable(g) and self.depth < 3 and g.qname not in self.stack):
+            return None
+        if self.an.summary(g, recv, A, self.depth + 1, self.stack) is not None:
+            return None
+        if not any(isinstance(n, ast.Return) and n.value is not None for n in g.own_nodes()):
+            return None
+        env = dict(A)
+        if recv is not None:
+            env[g.params()[0]] = recv
+        for sp in ('#lock', '#present', '#cands'):
+            if _g(st, sp) is not None:
+                env[sp] = _g(st, sp)
+        sub = _Sym(self.an, g, self.depth + 1, self.stack + (g.qname,))
+        sub.top = self.top
+        sub.outer_try = bool(self._try) or self.outer_try
+        for rec in ('sites', 'stores', 'lock_events', 'db', 'hazards', 'nested', 'cand_tests', 'member_tests'):
+            setattr(sub, rec, getattr(self, rec))
+        try:
+            out = sub.run(g.node, {frozenset(env.items())})
+        except AnalysisError:
+            return None
+        res = set()
+        for t, s2 in set(sub.ret_pairs) | {(CNONE, x) for x in out.normal}:
+            ns = st
+            for sp in ('#lock', '#present', '#cands'):
+                ns = _s(ns, sp, _g(s2, sp))
+            res.add((ns, t))
+        self._forks[k] = sorted(res, key=str)
+        return self._forks[k]
 
     def on_with(self, item, st):
         if item.optional_vars is not None:
@@ -914,7 +974,7 @@ class _Sym(Flow):
         is_log = (
             isinstance(call.func, ast.Attribute) and call.func.attr in LOG_METHODS and self.an.is_logger(call.func.value, self.f)
         )
-        if self.top and lock == 'held' and not self._try and not is_log:
+        if self.top and lock == 'held' and not self._try and not self.outer_try and not is_log:
             self.hazards[id(call)] = call
         if g is not None and self.top:
             if g.qname in self.an.lockers():
@@ -952,3 +1012,960 @@ class _Sym(Flow):
                 if isinstance(a, ast.Name) and (_g(st, a.id) or ('',))[0] == 'list':
                     st = _s(st, a.id, ('mut', 'passed', _g(st, a.id), ()))
         return (st,)
+
+
+# ---------------------------------------------------------------------------
+# shapes
+
+
+def nt_fields(module, name):
+    """field names of a module-level collections.namedtuple, else None"""
+    for v in module.globals.get(name, []):
+        if isinstance(v, ast.Call) and isinstance(v.func, ast.Attribute) and v.func.attr == 'namedtuple' and len(v.args) >= 2:
+            a = v.args[1]
+            if isinstance(a, (ast.List, ast.Tuple)) and all(isinstance(x, ast.Constant) and isinstance(x.value, str) for x in a.elts):
+                return [x.value for x in a.elts]
+            if isinstance(a, ast.Constant) and isinstance(a.value, str):
+                return a.value.replace(',', ' ').split()
+    return None
+
+
+def nt_args(prog, t):
+    """('call', ('glob', '<module>.<NT>'), None, args) -> {field: term} using the namedtuple definition, else None"""
+    if not (isinstance(t, tuple) and t[0] == 'call' and t[1][0] == 'glob'):
+        return None
+    mod, _, name = t[1][1].rpartition('.')
+    if mod not in prog.modules:
+        return None
+    fields = nt_fields(prog.modules[mod], name)
+    if fields is None:
+        return None
+    out = {}
+    for k, v in t[3]:
+        if k.isdigit():
+            if int(k) >= len(fields):
+                return None
+            out[fields[int(k)]] = v
+        elif k in fields:
+            out[k] = v
+        else:
+            return None
+    return out
+
+
+class Wire:
+    """how Connector._update_cmd puts its parameters on the wire and which element of the reply is the table index"""
+
+    def __init__(self, an):
+        prog = an.prog
+        self.problems = []
+        self.roles = {}  # role (name, parent, ver, table) -> parameter name of _update_cmd
+        self.index_pos = None
+        f = self.f = prog.func(UPD)
+        self.append = prog.func(UAPPEND)
+        self.construct = prog.func(UCONSTRUCT)
+        ps = f.params()[1:]
+        s = an.summary(f, SELF, tuple((p, ('param', p)) for p in ps), 1, ())
+        cmd = None
+        if s is not None and is_call_to(s, RPC) and len(s[3]) == 1:
+            cmd = nt_args(prog, s[3][0][1])
+        if cmd is None:
+            self.problems.append('Connector._update_cmd does not return the reply of one COMMAND sent through Connector.__do')
+        else:
+            if cmd.get('func') != ('glob', 'dawgie.db.shelve.enums.Func.upd'):
+                self.problems.append(f'the request of _update_cmd is sent as {show(cmd.get("func"))}, not Func.upd')
+            ks = nt_args(prog, cmd.get('keyset'))
+            if ks is None:
+                self.problems.append('the keyset of the _update_cmd request is not a KEYSET(name, parent, ver)')
+            else:
+                for role in ('name', 'parent', 'ver'):
+                    t = ks.get(role)
+                    if t is not None and t[0] == 'param' and t[1] in ps:
+                        self.roles[role] = t[1]
+                    else:
+                        self.problems.append(f'KEYSET field {role} of the _update_cmd request is {show(t) if t else "missing"}, not a parameter of _update_cmd')
+            t = cmd.get('table')
+            if t is not None and t[0] == 'param' and t[1] in ps:
+                self.roles['table'] = t[1]
+            else:
+                self.problems.append('COMMAND field table of the _update_cmd request is not a parameter of _update_cmd')
+        if len(set(self.roles.values())) != len(self.roles):
+            self.problems.append(f'one parameter of _update_cmd is sent in two KEYSET/COMMAND fields: {self.roles}')
+        for role in ('name', 'parent', 'ver', 'table'):
+            self.roles.setdefault(role, role)
+        # the reply: util.append(name, table, index, parent, ver) -> (exists, idx, name)
+        a = self.append
+        aps = a.params()
+        miss = [r for r in ('name', 'parent', 'ver') if r not in aps]
+        if miss:
+            self.problems.append(f'util.append has no parameter(s) {miss}: the KEYSET fields are passed to it by keyword')
+        s = an.summary(a, None, tuple((p, ('param', p)) for p in aps), 1, ())
+        self.cterm = None
+        if s is None or s[0] != 'tuple':
+            self.problems.append('util.append does not return one tuple on every path')
+        else:
+            for i, el in enumerate(s[1]):
+                if el[0] == 'sub' and el[1][0] == 'param' and is_call_to(el[2], UCONSTRUCT):
+                    self.index_pos = i
+                    self.cterm = el[2]
+            if self.index_pos is None:
+                self.problems.append('no element of the tuple returned by util.append is <table>[construct(name, parent, ver)]')
+            else:
+                ca = list(self.cterm[3])
+                want = [('param', r) for r in ('name', 'parent', 'ver')]
+                if [t for _, t in ca[:3]] != want:
+                    self.problems.append(f'util.append builds the table key as {show(self.cterm)}: name, parent and ver do not reach construct in their own slots')
+        # construct: the name depends on all three
+        c = self.construct
+        cps = c.params()
+        sub = _Sym(an, c, 1, (c.qname,))
+        try:
+            sub.run(c.node, {frozenset((p, ('param', p)) for p in cps)})
+            rets = sub.returns
+        except AnalysisError:
+            rets = set()
+        if len(cps) < 3 or not rets:
+            self.problems.append('util.construct not understood')
+        else:
+            if not all(contains(t, ('param', cps[0])) for t in rets):
+                self.problems.append('util.construct can return a name that does not contain the element name')
+            for p, what in ((cps[1], 'parent id'), (cps[2], 'version')):
+                if not any(contains(t, ('param', p)) for t in rets):
+                    self.problems.append(f'util.construct never puts the {what} into the name')
+
+
+def match_level(t, wire):
+    """<self>._update_cmd(...)[i] -> dict(call, index, name, parent, ver, table) else None"""
+    if isinstance(t, tuple) and len(t) == 3 and t[0] == 'sub' and is_call_to(t[1], UPD):
+        a = args_of(t[1])
+        d = {'call': t[1], 'index': t[2], 'term': t}
+        for role in ('name', 'parent', 'ver', 'table'):
+            d[role] = a.get(wire.roles[role])
+        return d
+    return None
+
+
+def table_of(level):
+    t = level['table']
+    if t is not None and t[0] == 'glob' and t[1].startswith(TABLE):
+        return t[1][len(TABLE):]
+    return None
+
+
+def own_version(level, what):
+    """level is (X.name(), ..., X._get_ver()) -> X else None   [what='elem']
+    level is (VN, ..., Y[VN]._get_ver()) -> (Y, VN) else None   [what='item']"""
+    v, n = level['ver'], level['name']
+    if not (v is not None and v[0] == 'call' and v[1][0] == 'attr' and v[1][2] == '_get_ver' and not v[3]):
+        return None
+    owner = v[1][1]
+    if what == 'elem':
+        if n == ('call', ('attr', owner, 'name'), None, ()):
+            return owner
+        return None
+    if owner[0] == 'sub' and owner[2] == n:
+        return owner[1], n
+    return None
+
+
+def key_fields(t):
+    if isinstance(t, tuple) and t[0] == 'tuple' and not any(x[0] == 'star' for x in t[1]):
+        return list(t[1])
+    return None
+
+
+class KeyCheck:
+    """obligations of R-C06-1 on one key term; collects (construct, ok, detail, where) and the holes of the key"""
+
+    def __init__(self, an, wire, term, holder):
+        self.an = an
+        self.wire = wire
+        self.term = term
+        self.holder = holder  # Func in which the key is used (for keys that are built in place)
+        self.obl = []
+        self.holes = {}
+        self.ok = True
+        self._check()
+
+    def _origin(self, level):
+        f, node = self.an.origin.get(level['call'], (self.holder, None))
+        return f, where(f, node)
+
+    def _add(self, f, wh, what, ok, detail, msg):
+        self.obl.append((f'{f.qname}:{what}', ok, detail if ok else msg, wh))
+        self.ok = self.ok and ok
+
+    def _check(self):
+        w = self.wire
+        fs = key_fields(self.term)
+        h = self.holder
+        lv0 = None
+        if fs is not None:
+            for x in fs:
+                lv0 = lv0 or match_level(x, w)
+        of, ow = self._origin(lv0) if lv0 else (h, where(h))
+        self._add(of, ow, 'key-layout', fs is not None and len(fs) == 6, '6 fields', f'the prime key is {show(self.term)}: not a tuple of the 6 fields (run, target, task, algorithm, state vector, value)')
+        if fs is None or len(fs) != 6:
+            return
+        self.holes['run'] = fs[0]
+        lv = [None] + [match_level(x, w) for x in fs[1:]]
+        self._add(of, ow, 'key-field[run]', match_level(fs[0], w) is None and not any(match_level(x, w) for x in subterms(fs[0])), 'field 0 is the run id as given', f'field 0 of the prime key is {show(fs[0])}, not a plain run id')
+        for i in range(1, 6):
+            L = lv[i]
+            if L is None:
+                self._add(of, ow, f'key-field[{FIELDS[i]}]', False, '', f'field {i} ({FIELDS[i]}) of the prime key is {show(fs[i])}, not an id interned with _update_cmd')
+                continue
+            f, wh = self._origin(L)
+            tb = table_of(L)
+            idx = L['index']
+            okidx = idx[0] == 'const' and idx[1] == 'int' and idx[2] == w.index_pos
+            self._add(
+                f, wh, f'key-field[{FIELDS[i]}]', tb == TABLES[i] and okidx, f'Table.{tb} index (reply element {w.index_pos})',
+                (f'field {i} of the prime key must be the {FIELDS[i]} id (Table.{TABLES[i]}) but is interned in {show(L["table"])}' if tb != TABLES[i] else '')
+                + ('' if okidx else f' element {show(idx)} of the _update_cmd reply is used, the table index is element {w.index_pos}'),
+            )
+        # parent chain
+        for i in (3, 4, 5):
+            L, P = lv[i], lv[i - 1]
+            if L is None:
+                continue
+            f, wh = self._origin(L)
+            good = P is not None and L['parent'] == P['term']
+            self._add(
+                f, wh, f'key-parent[{FIELDS[i]}]', good, f'parent is the {FIELDS[i - 1]} id',
+                f'the {FIELDS[i]} level is interned under parent {show(L["parent"]) if L["parent"] else None}, not under the id of its own {FIELDS[i - 1]} ({show(P["term"]) if P else "?"}): '
+                f'two {FIELDS[i]}s of the same name under different {FIELDS[i - 1]}s share one id',
+            )
+        # own versions
+        X = Y = None
+        if lv[1] is not None:
+            self.holes['tn'] = lv[1]['name']
+        if lv[2] is not None:
+            self.holes['task'] = lv[2]['name']
+        for i, hole in ((3, 'alg'), (4, 'sv')):
+            L = lv[i]
+            if L is None:
+                continue
+            f, wh = self._origin(L)
+            o = own_version(L, 'elem')
+            self._add(
+                f, wh, f'key-version[{FIELDS[i]}]', o is not None, f'name and version of {show(o) if o else ""}',
+                f'the {FIELDS[i]} level is interned with name {show(L["name"])} and version {show(L["ver"]) if L["ver"] else None}: not the name() and _get_ver() of one and the same {FIELDS[i]}; '
+                f'values of different versions (or authors) share one id',
+            )
+            if o is not None:
+                self.holes[hole] = o
+        L = lv[5]
+        if L is not None:
+            f, wh = self._origin(L)
+            o = own_version(L, 'item')
+            Y = self.holes.get('sv')
+            good = o is not None and (Y is None or o[0] == Y)
+            self._add(
+                f, wh, 'key-version[value]', good, f'version of {show(o[0])}[{show(o[1])}]' if o else '',
+                f'the value level is interned with name {show(L["name"])} and version {show(L["ver"]) if L["ver"] else None}: not the _get_ver() of that value of the same state vector; '
+                f'a value version bump would not separate old from new data',
+            )
+            if o is not None:
+                self.holes['vn'] = o[1]
+                self.holes.setdefault('sv', o[0])
+
+
+# ---------------------------------------------------------------------------
+# facts shared by the rules
+
+
+class Facts:
+    def __init__(self, ctx, rep):
+        self.an = an = _An(ctx)
+        prog = ctx.prog
+        self.load = prog.func(IFACE + '._load')
+        self.update = prog.func(IFACE + '._update')
+        self.update_msv = prog.func(IFACE + '._update_msv')
+        for q in (UPD, SETP, GETP, PKEYS, RPC, ACQ, REL):
+            prog.func(q)
+        # writers by role: every function with a call resolving to Connector._set_prime
+        writers = {e.src.qname: e.src for e in ctx.cg.callers(SETP, kinds={'direct'}) if e.src is not None}
+        writers.setdefault(self.update.qname, self.update)
+        writers.setdefault(self.update_msv.qname, self.update_msv)
+        self.writers = [writers[q] for q in sorted(writers)]
+        self.bracketed = [self.load] + [w for w in self.writers]
+        self.runs = {f.qname: an.run(f) for f in self.bracketed}
+        rep.analysed(*self.bracketed)
+        self.wire = Wire(an)
+        rep.analysed(self.wire.f, self.wire.append, self.wire.construct)
+        # own identity of a Dataset: what its accessors return
+        self.own = {}
+        for role, acc in (('run', '_runid'), ('tn', '_tn'), ('task', '_task'), ('alg', '_alg')):
+            g = prog.func(f'{DATASET}.{acc}')
+            rep.analysed(g)
+            t = an.summary(g, SELF, (), 1, ())
+            if t is None:
+                raise AnalysisError(f'accessor {g.qname} does not return one expression')
+            self.own[role] = t
+        self.keychecks = {}
+
+    def keycheck(self, term, holder):
+        if term not in self.keychecks:
+            self.keychecks[term] = KeyCheck(self.an, self.wire, term, holder)
+        return self.keychecks[term]
+
+    def writer_sites(self):
+        for w in self.writers:
+            for call, kind, sts in self.runs[w.qname].sites.values():
+                if kind == 'set':
+                    yield w, call, sts
+
+    def reader_sites(self):
+        for call, kind, sts in self.runs[self.load.qname].sites.values():
+            if kind == 'get':
+                yield self.load, call, sts
+
+    def exact_reader_keys(self):
+        """terms tested for membership in the prime keys by _load"""
+        out = set()
+        run = self.runs[self.load.qname]
+        for _call, kind, sts in run.sites.values():
+            for k, _v, present, _c, _l in sts:
+                if present is not None:
+                    out.add(present[1])
+                if key_fields(k) is not None:
+                    out.add(k)
+        for _node, evs in run.stores.values():
+            for ev in evs:
+                if ev[4] is not None:
+                    out.add(ev[4][1])
+        return out
+
+
+def _topup(r):
+    """floors guard against vacuous passes; a rule that reports a finding is not passing, so it must end as VIOLATION, not ANALYSIS-ERROR"""
+    if r.findings and r.instances < r.floor:
+        r.instances = r.floor
+
+
+def _flush(r, table):
+    """emit de-duplicated obligations {construct: (ok, detail, where)}; a failure of a construct wins"""
+    for construct in sorted(table):
+        ok, detail, wh = table[construct]
+        r.check(ok, construct, wh, detail, detail)
+
+
+def _merge(table, construct, ok, detail, wh):
+    cur = table.get(construct)
+    if cur is None or (cur[0] and not ok):
+        table[construct] = (ok, detail, wh)
+
+
+def rule1(ctx, rep, fx):
+    prog, an, wire = ctx.prog, fx.an, fx.wire
+    with rep.rule(
+        'R-C06-1',
+        'prime key chain: fields (run, target, task, algorithm, state vector, value); each level interned under the id of the previous level '
+        'and with the name and version of its own element; the id taken is the table index of the reply',
+        floor=14,
+        breaks='values are filed under, or read from, the id of another author or another version: a load returns foreign data',
+    ) as r:
+        table = {}
+        # wire: parameter -> KEYSET field -> util.append -> construct, and which reply element is the index
+        r.instance()
+        _merge(
+            table, f'{wire.f.qname}:wire', not wire.problems,
+            f'name/parent/ver/table sent in their own fields ({wire.roles}); reply element {wire.index_pos} is <table>[construct(name, parent, ver)]'
+            if not wire.problems else '; '.join(wire.problems), where(wire.f),
+        )
+        keys = []
+        for w, call, sts in fx.writer_sites():
+            keys += [(k, w) for k, *_ in sts]
+        keys += [(k, fx.load) for k in fx.exact_reader_keys()]
+        seen = set()
+        for k, holder in keys:
+            if k in seen or k is None:
+                continue
+            seen.add(k)
+            kc = fx.keycheck(k, holder)
+            for construct, ok, detail, wh in kc.obl:
+                _merge(table, construct, ok, detail, wh)
+        r.instance(len([c for c in table if ':key-' in c]))
+        # siblings: every other tuple of interned ids built in the model module (Container / Timeline views compare them with key fields)
+        origins = {an.origin[t][0].qname for t in an.origin if is_call_to(t, UPD)} if seen else set()
+        mains = {c.rsplit(':', 1)[0] for c in table if ':key-' in c}
+        for f in sorted(prog.modules[MODEL].funcs.values(), key=lambda f: f.qname) + sorted(
+            (m for c in prog.modules[MODEL].classes.values() for m in c.methods.values()), key=lambda f: f.qname
+        ):
+            if f.qname in mains or f in fx.bracketed:
+                continue
+            n_upd = [c for c in f.calls() if (prog.callee(c, f) or '') == UPD]
+            if len(n_upd) < 2:
+                continue
+            rep.analysed(f)
+            run = an.run(f)
+            terms = set(run.returns)
+            for _node, evs in run.stores.values():
+                for ev in evs:
+                    terms |= {x for x in (ev[2], ev[3]) if x is not None}
+            tuples = set()
+            for t in terms:
+                for x in subterms(t):
+                    if x and x[0] in ('tuple', 'list') and len(x) == 2 and isinstance(x[1], tuple) and sum(1 for y in x[1] if match_level(y, wire)) >= 2:
+                        tuples.add(x)
+            for tp in sorted(tuples, key=show):
+                lvs = [match_level(y, wire) for y in tp[1]]
+                if not all(lvs):
+                    _merge(table, f'{f.qname}:sibling-key', False, f'{show(tp)} mixes interned ids with other values', where(f))
+                    continue
+                tbs = [table_of(L) for L in lvs]
+                r.instance(len(lvs))
+                j = TABLES.index(tbs[0]) if tbs[0] in TABLES else -1
+                seq_ok = j >= 1 and tuple(tbs) == TABLES[j : j + len(tbs)]
+                _merge(
+                    table, f'{f.qname}:sibling-key-layout', seq_ok,
+                    f'ids of {tbs} in the order of the prime key fields' if seq_ok else f'the id tuple {show(tp)} uses tables {tbs}: not a run of consecutive prime key fields {TABLES[1:]}; it is compared with slices of prime keys',
+                    where(f, an.origin.get(lvs[0]['call'], (f, None))[1]),
+                )
+                for i, L in enumerate(lvs):
+                    tb = tbs[i]
+                    wh = where(f, an.origin.get(L['call'], (f, None))[1])
+                    if tb in ('alg', 'state', 'value'):
+                        prev = TABLES[TABLES.index(tb) - 1]
+                        P = match_level(L['parent'], wire) if L['parent'] else None
+                        good = P is not None and table_of(P) == prev and (i == 0 or tbs[i - 1] != prev or P['term'] == lvs[i - 1]['term'])
+                        _merge(
+                            table, f'{f.qname}:sibling-key-parent[{tb}]', good, f'parent is the {prev} id' if good else
+                            f'the {tb} id is interned under parent {show(L["parent"]) if L["parent"] else None}, not under the {prev} id of the same reference', wh,
+                        )
+                    if tb in ('alg', 'state'):
+                        o = own_version(L, 'elem')
+                        _merge(table, f'{f.qname}:sibling-key-version[{tb}]', o is not None, f'name and version of {show(o)}' if o else
+                               f'the {tb} id is interned with name {show(L["name"])} and version {show(L["ver"]) if L["ver"] else None}: not name() and _get_ver() of one element', wh)
+                    if tb == 'value':
+                        o = own_version(L, 'item')
+                        sv = own_version(lvs[i - 1], 'elem') if i and tbs[i - 1] == 'state' else None
+                        good = o is not None and (sv is None or sv == o[0])
+                        _merge(table, f'{f.qname}:sibling-key-version[value]', good, f'version of {show(o[0])}[{show(o[1])}]' if good else
+                               f'the value id is interned with name {show(L["name"])} and version {show(L["ver"]) if L["ver"] else None}: not the version of that value of the same state vector', wh)
+                    idx = L['index']
+                    if not (idx[0] == 'const' and idx[2] == wire.index_pos):
+                        _merge(table, f'{f.qname}:sibling-key-index[{tb}]', False, f'element {show(idx)} of the _update_cmd reply used as the {tb} id (the index is element {wire.index_pos})', wh)
+        _flush(r, table)
+        r.extra['distinct_key_terms'] = len(seen)
+        r.extra['origins'] = sorted(origins)
+        rep.analysed(*[prog.funcs[q] for q in origins if q in prog.funcs])
+        _topup(r)
+
+
+def _sv_ok(fx, f, sv):
+    """the state vector of a key comes from the own algorithm (or is the metric state vector handed in)"""
+    own_svs = ('call', ('attr', fx.own['alg'], 'state_vectors'), None, ())
+    if sv[0] == 'elem' and contains(sv[1], own_svs):
+        return True, 'one of the own algorithm\'s state vectors'
+    if sv[0] == 'param' and sv[1] in f.params()[1:]:
+        return True, f'the state vector handed in ({sv[1]})'
+    return False, ''
+
+
+def _vn_ok(sv, vn):
+    return vn[0] == 'elem' and vn[1] in (sv, ('call', ('attr', sv, 'keys'), None, ()))
+
+
+def rule2(ctx, rep, fx):
+    with rep.rule(
+        'R-C06-2',
+        'writers and the reader build the key the same way from arguments of the same provenance: own run id, own target, own task, own algorithm, '
+        'a state vector of that algorithm and one of its value names; the value written / the slot filled is that state vector\'s item of that name',
+        floor=3,
+        breaks='a value is stored under, or loaded from, the key of another run, target, task or algorithm, or lands in the wrong slot',
+    ) as r:
+        abstract = {}
+        sites = [(w, call, 'set', sts) for w, call, sts in fx.writer_sites()] + [(f, call, 'get', sts) for f, call, sts in fx.reader_sites()]
+        for f, call, kind, sts in sites:
+            exact = sorted({(k, v) for k, v, *_ in sts if k is not None and (kind == 'set' or key_fields(k) is not None)}, key=lambda kv: show(kv[0]))
+            if kind == 'set' and not exact:
+                r.instance()
+                r.fail(f'{f.qname}:{norm(call)}', where(f, call), 'key argument of _set_prime not understood')
+            for k, v in exact:
+                r.instance()
+                kc = fx.keycheck(k, f)
+                h = kc.holes
+                base = f'{f.qname}:key-arg'
+                wh = where(f, call)
+                missing = [lab for role, lab in (('run', 'run id'), ('tn', 'target'), ('task', 'task'), ('alg', 'algorithm'), ('sv', 'state vector'), ('vn', 'value name')) if role not in h]
+                if missing:
+                    r.fail(f'{base}[shape]', wh, f'the {", ".join(missing)} of the key used by {norm(call)[:60]} cannot be identified: the key does not have the shape required by R-C06-1')
+                    continue
+                for role, label in (('run', 'run id'), ('tn', 'target'), ('task', 'task'), ('alg', 'algorithm')):
+                    r.check(
+                        h[role] == fx.own[role], f'{base}[{label}]', wh, f'{label} is the own {show(fx.own[role])}',
+                        f'the {label} of the key used by {norm(call)[:60]} is {show(h[role])}, not the data set\'s own {label} ({show(fx.own[role])})',
+                    )
+                if 'sv' in h and 'vn' in h:
+                    ok, how = _sv_ok(fx, f, h['sv'])
+                    r.check(ok, f'{base}[state vector]', wh, how, f'the state vector of the key is {show(h["sv"])}: neither one of the own algorithm\'s state vectors nor the one handed in')
+                    r.check(_vn_ok(h['sv'], h['vn']), f'{base}[value name]', wh, 'a value name of that state vector', f'the value name of the key is {show(h["vn"])}: not one of the names of {show(h["sv"])}')
+                    abstract[(f.qname, kind)] = subst(k, {h['sv']: ('hole', 'sv'), h['vn']: ('hole', 'vn')})
+                    if kind == 'set':
+                        r.check(
+                            v == ('sub', h['sv'], h['vn']), f'{f.qname}:stored-value', wh, 'the value written is <sv>[<name>] of the key',
+                            f'{norm(call)[:70]} writes {show(v) if v else None} under the key of {show(h["sv"])}[{show(h["vn"])}]',
+                        )
+        # the slot filled by the reader
+        run = fx.runs[fx.load.qname]
+        for node, evs in sorted(run.stores.values(), key=lambda x: x[0].lineno):
+            for kind, basev, idx, val, present, _c in sorted(evs, key=str):
+                if val is not None and is_call_to(val, GETP) and present is not None:
+                    kc = fx.keycheck(present[1], fx.load)
+                    h = kc.holes
+                    if 'sv' not in h or 'vn' not in h:
+                        continue  # reported as key-arg[shape]
+                    r.check(
+                        kind == 'store' and basev == h.get('sv') and idx == h.get('vn'), f'{fx.load.qname}:filled-slot', where(fx.load, node),
+                        'the loaded value fills <sv>[<name>] of the key that was looked up',
+                        f'{norm(node)[:70]}: the value loaded for {show(h.get("sv"))}[{show(h.get("vn"))}] is put into {show(basev)}[{show(idx) if idx else None}]',
+                    )
+        # same construction on both sides
+        if abstract:
+            ref_k = sorted(abstract)[0]
+            for k2 in sorted(abstract):
+                if k2 == ref_k:
+                    continue
+                r.check(
+                    abstract[k2] == abstract[ref_k], f'{k2[0]}:same-key-as:{ref_k[0]}', '', 'identical key term up to the state vector and value name',
+                    f'{k2[0]} and {ref_k[0]} build different prime keys for the same identity: {show(abstract[k2])} vs {show(abstract[ref_k])}',
+                )
+        getters = [1 for _f, _c, kind, _s in sites if kind == 'get']
+        if not getters:
+            r.fail(f'{fx.load.qname}:no-read', where(fx.load), '_load no longer reads the prime table through _get_prime')
+        for w in (fx.update, fx.update_msv):
+            if not any(f is w and kind == 'set' for f, _c, kind, _s in sites):
+                r.fail(f'{w.qname}:no-write', where(w), f'{w.name} no longer writes the prime table through _set_prime')
+        _topup(r)
+
+
+# ---------------------------------------------------------------------------
+# fallback: candidate predicate truth table, ordering and selection
+
+K0 = (10, 21, 32, 43, 54, 65)
+
+
+def _pred_of(an, base, K):
+    """-> (element name, predicate ast or None, reference names, source term); raises _NU"""
+    if base[0] == 'comp':
+        node, sym, st = an.nodes[base]
+        if len(node.generators) != 1 or not isinstance(node.generators[0].target, ast.Name):
+            raise _NU('comprehension with several generators / a structured target')
+        g = node.generators[0]
+        if not (isinstance(node.elt, ast.Name) and node.elt.id == g.target.id):
+            raise _NU('the comprehension transforms the candidates')
+        pred = None if not g.ifs else (g.ifs[0] if len(g.ifs) == 1 else ast.BoolOp(op=ast.And(), values=list(g.ifs)))
+        used = {x.id for c in g.ifs for x in ast.walk(c) if isinstance(x, ast.Name)}
+        refs = {n: t for n, t in base[2] if n in used}
+        return g.target.id, pred, refs, sym.T(g.iter, st)
+    lam, src = base[3][0][1], base[3][1][1]
+    if lam[0] != 'lambda':
+        raise _NU(f'filter function {show(lam)} is not a lambda')
+    node, _sym, _st = an.nodes[lam]
+    a = node.args
+    ps = [x.arg for x in a.posonlyargs + a.args]
+    if not ps or a.vararg or a.kwarg or a.kwonlyargs:
+        raise _NU('lambda signature')
+    refs = dict(lam[2])
+    if set(ps[1:]) - set(refs):
+        raise _NU('lambda parameter without a default')
+    refs.update(dict(lam[3]))
+    return ps[0], node.body, refs, src
+
+
+def candidate_problems(an, base, K):
+    """why the candidate collection is not {k in prime keys : k differs from K at most in the run}; [] if it is"""
+    try:
+        elem, pred, refs, src = _pred_of(an, base, K)
+    except _NU as e:
+        return [f'candidate filter not understood ({e})'], 0
+    out = []
+    if not is_primekeys(src):
+        out.append(f'candidates are taken from {show(src)}, not from the prime keys')
+    env0 = {}
+    for n, t in refs.items():
+        if n == elem:
+            continue
+        if t == K:
+            env0[n] = K0
+        elif t[0] == 'glob':
+            continue
+        else:
+            return out + [f'the filter compares with {n} = {show(t)}, which is not the key that was looked up'], 0
+    rows = 0
+    wrong_accept, wrong_reject = [], []
+    for D in itertools.chain.from_iterable(itertools.combinations(range(6), n) for n in range(7)):
+        k = tuple(v + 100 if i in D else v for i, v in enumerate(K0))
+        env = dict(env0)
+        env[elem] = k
+        try:
+            got = True if pred is None else bool(_pev(pred, env))
+        except _NU as e:
+            return out + [f'candidate predicate {norm(pred)} not understood ({e})'], rows
+        rows += 1
+        want = set(D) <= {0}
+        if got and not want:
+            wrong_accept.append(D)
+        if want and not got:
+            wrong_reject.append(D)
+    single = [FIELDS[D[0]] for D in wrong_accept if len(D) == 1]
+    if single:
+        out.append('the fallback accepts an entry of another ' + ' / '.join(single))
+    elif wrong_accept:
+        out.append(f'the fallback accepts entries that differ in fields {[list(D) for D in wrong_accept[:3]]}')
+    if () in wrong_reject:
+        out.append('the fallback rejects an entry identical to the key')
+    if (0,) in wrong_reject:
+        out.append('the fallback rejects entries of other runs (there is nothing to fall back to)')
+    return out, rows
+
+
+def _keyfn(an, t):
+    if t is None or t == CNONE:
+        return lambda x: x
+    if t[0] == 'lambda':
+        node, _s2, _st = an.nodes[t]
+        a = node.args
+        ps = [x.arg for x in a.posonlyargs + a.args]
+        if len(ps) != 1 or a.defaults or t[3]:
+            raise _NU('sort key lambda with extra parameters / free variables')
+        return lambda x, n=node, p=ps[0]: _pev(n.body, {p: x})
+    if t[0] == 'call' and t[1] == ('glob', 'external:operator.itemgetter') and len(t[3]) == 1 and t[3][0][1][0] == 'const' and isinstance(t[3][0][1][2], int):
+        return lambda x, i=t[3][0][1][2]: x[i]
+    raise _NU(f'sort key {show(t)}')
+
+
+def _coll_eval(an, t, samples):
+    if cand_base(t) == t:
+        return list(samples)
+    if t[0] == 'sorted':
+        inner = _coll_eval(an, t[1], samples)
+        rev = t[3]
+        if rev is None or rev[0] != 'const':
+            raise _NU('non-constant reverse argument')
+        try:
+            return sorted(inner, key=_keyfn(an, t[2]), reverse=bool(rev[2]))
+        except TypeError as e:
+            raise _NU(f'sort key not comparable: {e}') from e
+    if t[0] == 'mut' and t[1] == 'reverse':
+        return list(reversed(_coll_eval(an, t[2], samples)))
+    if t[0] == 'call' and t[1][0] == 'glob' and t[1][1] in ('external:list', 'external:tuple') and len(t[3]) == 1:
+        return list(_coll_eval(an, t[3][0][1], samples))
+    raise _NU(f'collection {show(t)}')
+
+
+def selection_problems(an, sel):
+    """why `sel` does not pick the candidate of the highest run; [] if it does.  -> (problems, evaluations, collection term)"""
+    if sel[0] == 'sub' and sel[2][0] == 'const' and sel[2][1] == 'int':
+        coll = sel[1]
+        pick = lambda xs, i=sel[2][2]: xs[i]
+    elif sel[0] in ('max', 'min'):
+        coll = sel[1]
+        pick = (lambda xs, kf=sel[2]: max(xs, key=_keyfn(an, kf))) if sel[0] == 'max' else (lambda xs, kf=sel[2]: min(xs, key=_keyfn(an, kf)))
+    else:
+        return [f'key {show(sel)} is neither the key that was looked up nor a selection from the candidates'], 0, None
+    if cand_base(coll) is None:
+        return [f'{show(coll)} is not a filtered view of the prime keys'], 0, None
+    runs = (30, 9, 100, 10)
+    n = 0
+    try:
+        for size in (1, 2, 3, 4):
+            for perm in itertools.permutations(runs[:size]):
+                samples = [(x,) + K0[1:] for x in perm]
+                got = pick(_coll_eval(an, coll, samples))
+                n += 1
+                if got != (max(perm),) + K0[1:]:
+                    return [f'with candidate runs {list(perm)} (in table order) the entry of run {got[0] if isinstance(got, tuple) else got} is taken, not that of the highest run {max(perm)}'], n, coll
+    except _NU as e:
+        return [f'ordering / selection not understood ({e})'], n, coll
+    except IndexError:
+        return [f'selection index {show(sel[2])} fails for a candidate list of {size} entr{"y" if size == 1 else "ies"}'], n, coll
+    return [], n, coll
+
+
+def rule3(ctx, rep, fx):
+    f = fx.load
+    an = fx.an
+    with rep.rule(
+        'R-C06-3',
+        'exact entry when present, else fallback: the key read is the looked-up key only after a positive membership test; when absent it is the '
+        'entry of the highest run among the prime keys equal to the looked-up key in all five identity fields (64-row truth table of the filter, '
+        'ordering evaluated on permuted samples)',
+        floor=2,
+        breaks='a load returns the value of another target / author / version, or an old run instead of the requested or the highest one',
+    ) as r:
+        combos = {}
+        for _f, call, sts in fx.reader_sites():
+            for k, _v, present, cands, _lock in sts:
+                combos.setdefault((k, present, cands), call)
+        kinds = set()
+        rows = evals = 0
+        for (k, present, cands), call in sorted(combos.items(), key=lambda kv: (show(kv[0][0]), str(kv[0][1] and kv[0][1][0]), str(kv[0][2] and kv[0][2][0]))):
+            r.instance()
+            wh = where(f, call)
+            if k is not None and key_fields(k) is not None:
+                kinds.add('exact')
+                r.check(
+                    present == ('yes', k), f'{f.qname}:exact-key-read', wh, 'read only after the key was found among the prime keys',
+                    f'{norm(call)} reads the looked-up key on a path where it is ' + ('known to be absent' if present == ('no', k) else 'not known to be present') + ' in the prime table',
+                )
+                continue
+            kinds.add('fallback')
+            probs, n, coll = selection_problems(an, k) if k is not None else (['key not understood'], 0, None)
+            evals += n
+            base = cand_base(coll) if coll is not None else None
+            if base is not None:
+                if present is None or present[0] != 'no':
+                    probs.append('the fallback entry is read on a path where the looked-up key ' + ('is present' if present else 'was not tested for presence') + ' (the requested run must win when it exists)')
+                else:
+                    kc = fx.keycheck(present[1], f)
+                    if key_fields(present[1]) is None:
+                        probs.append(f'the key that was looked up ({show(present[1])}) is not a prime key tuple')
+                    p2, n2 = candidate_problems(an, base, present[1])
+                    probs += p2
+                    rows += n2
+                if cands != ('nonempty', base):
+                    probs.append('an entry is selected from the candidates on a path where they are not known to be non-empty (nothing matching must leave the value untouched, not raise)')
+            r.check(
+                not probs, f'{f.qname}:fallback-key-read', wh,
+                'absent key -> highest run among the prime keys equal in target, task, algorithm, state vector and value', '; '.join(probs),
+            )
+        r.extra['truth_table_rows'] = rows
+        r.extra['ordering_samples'] = evals
+        if 'exact' not in kinds:
+            r.fail(f'{f.qname}:exact-key-read', where(f), 'no read of the looked-up key itself: the requested run is never preferred')
+        if 'fallback' not in kinds:
+            r.fail(f'{f.qname}:fallback-key-read', where(f), 'no fallback read: a value stored by an earlier run is not loaded')
+        _topup(r)
+
+
+def rule4(ctx, rep, fx):
+    f = fx.load
+    run = fx.runs[f.qname]
+    with rep.rule(
+        'R-C06-4',
+        'nothing matches => untouched: every store into a state vector in _load happens only with the key found or with a non-empty candidate list',
+        floor=2,
+        breaks='a value that has no stored counterpart is overwritten (or the load raises) instead of being left as it is',
+    ) as r:
+        own_svs = ('call', ('attr', fx.own['alg'], 'state_vectors'), None, ())
+        svs = set()
+        for k in fx.exact_reader_keys():
+            h = fx.keycheck(k, f).holes
+            if 'sv' in h:
+                svs.add(h['sv'])
+        n = 0
+        for node, evs in sorted(run.stores.values(), key=lambda x: (x[0].lineno, x[0].col_offset)):
+            rel = [ev for ev in evs if ev[1] in svs or (ev[1][0] == 'elem' and contains(ev[1][1], own_svs))]
+            if not rel:
+                continue
+            n += 1
+            r.instance()
+            bad = []
+            for kind, base, idx, _val, present, cands in rel:
+                ok = (present is not None and present[0] == 'yes') or (present is not None and present[0] == 'no' and cands is not None and cands[0] == 'nonempty')
+                if not ok:
+                    bad.append('key ' + ('absent' if present and present[0] == 'no' else 'not tested') + ', candidates ' + (cands[0] if cands else 'not tested'))
+            r.check(
+                not bad, f'{f.qname}:{norm(node)[:80]}', where(f, node), 'reached only with the key present or a non-empty candidate list',
+                f'{norm(node)[:80]} changes the state vector on a path with ' + ' / '.join(sorted(set(bad))),
+            )
+        if n == 0:
+            r.fail(f'{f.qname}:no-store', where(f), '_load no longer stores a loaded value into a state vector of the own algorithm')
+        r.instance()
+        fallback = any(k is not None and key_fields(k) is None for _f, _c, sts in fx.reader_sites() for k, *_ in sts)
+        if fallback:
+            r.check(
+                bool(run.cand_tests), f'{f.qname}:no-match-path', where(f, next(iter(run.cand_tests.values()), None)),
+                'the empty candidate list is told apart by ' + ', '.join(sorted({norm(e) for e in run.cand_tests.values()})),
+                'no test of the candidate list for emptiness: the nothing-matches case is not distinguished', nontrivial=False,
+            )
+        else:
+            r.ok(f'{f.qname}:no-match-path', 'no fallback read: only a key that was found is ever loaded', where(f), nontrivial=False)
+        _topup(r)
+
+
+def rule5(ctx, rep, fx):
+    an = fx.an
+    with rep.rule(
+        'R-C06-5',
+        'lock bracket: every access to the shelve server in _load / _update / _update_msv happens with the database lock held (own or handed in); '
+        'an own lock is released exactly once on every exit including exceptions; a handed-in lock is neither re-acquired nor released; '
+        'the nested load receives the lock',
+        floor=4,
+        breaks='a load interleaves with an update (half-written key chain read), the lock leaks after an exception (every later load/update blocks), '
+        'or the nested load deadlocks on the lock its parent holds',
+    ) as r:
+        for f in fx.bracketed:
+            run = fx.runs[f.qname]
+            r.instance()
+            acq = [k for k in run.lock_events if k[0] == 'acquire']
+            probs = []
+            if not acq:
+                probs.append('the database lock is never acquired')
+            for (kind, _i, lock, a), node in sorted(run.lock_events.items(), key=lambda kv: (kv[1].lineno, str(kv[0][2]))):
+                if kind == 'acquire' and lock != 'free':
+                    probs.append(f'{norm(node)[:50]} acquires while the lock is {"handed in by the caller" if lock == "borrowed" else lock}')
+                if kind == 'release' and not (lock == 'held' and a == LOCK):
+                    probs.append(f'{norm(node)[:50]} releases ' + ('the lock handed in by the caller' if lock == 'borrowed' else f'{show(a) if a else "?"} in lock state {lock}'))
+            r.check(not probs, f'{f.qname}:acquire-release', where(f), f'{len(acq)} acquire path(s), every release hits the own held lock', '; '.join(sorted(set(probs))))
+            # exits
+            ex = {'normal': run.out.normal | run.out.ret, 'exception': run.out.exc}
+            bad = sorted({f'{kind} exit with the lock {_g(st, "#lock")}' for kind, sts in ex.items() for st in sts if _g(st, '#lock') in ('held', 'double', 'bad-release')})
+            hz = sorted({norm(c)[:60] for c in run.hazards.values()})
+            if hz:
+                bad.append('call(s) between acquire and the protected region that can raise with the lock held: ' + ', '.join(hz))
+            r.check(
+                not bad, f'{f.qname}:released-on-every-exit', where(f),
+                f'{len(ex["normal"])} normal and {len(ex["exception"])} exceptional abstract exits, none with the own lock still held', '; '.join(bad),
+            )
+            # accesses
+            for call, g, locks in sorted(run.db.values(), key=lambda x: (x[0].lineno, x[0].col_offset)):
+                r.instance()
+                ok = locks <= {'held', 'borrowed'}
+                r.check(ok, f'{f.qname}:locked:{norm(call.func)}', where(f, call), f'{g.name} under lock ({sorted(locks)})',
+                        f'{norm(call)[:70]} talks to the shelve server in lock state {sorted(locks - {"held", "borrowed"})}')
+            for call, g, sts in sorted(run.nested.values(), key=lambda x: (x[0].lineno, x[0].col_offset)):
+                r.instance()
+                probs = []
+                for lock, passed in sorted(sts, key=str):
+                    if lock in ('held', 'borrowed'):
+                        if not passed or not all(t == LOCK or t[0] == 'given' for _p, t in passed):
+                            probs.append(f'called with the lock {lock} but ' + ('the callee takes no lock parameter' if not passed else 'passes ' + ', '.join(f'{p}={show(t)}' for p, t in passed)) + ': it would wait for the lock its caller holds')
+                        if g.qname not in fx.runs:
+                            probs.append(f'{g.qname} is not one of the analysed bracketed functions')
+                    elif lock != 'free':
+                        probs.append(f'called in lock state {lock}')
+                r.check(not probs, f'{f.qname}:nested:{norm(call.func)}', where(f, call), 'the held lock is handed to the nested call', '; '.join(probs))
+        nested = sum(len(fx.runs[f.qname].nested) for f in fx.bracketed)
+        if not nested:
+            r.note('no nested bracketed call found (upstream loads no longer go through a child data set)')
+        _topup(r)
+
+
+def _post_sibling(ctx, rep):
+    """ND: PostgreSQL sibling difference, reported in the thorough evidence only"""
+    prog = ctx.prog
+    out = {}
+    for name in ('_load', '_update'):
+        f = prog.funcs.get(f'dawgie.db.post.Interface.{name}')
+        if f is None:
+            continue
+        sel = []
+        for c in f.calls():
+            if isinstance(c.func, ast.Attribute) and c.func.attr == 'execute' and c.args:
+                try:
+                    txt = ''.join(x.value for x in ast.walk(c.args[0]) if isinstance(x, ast.Constant) and isinstance(x.value, str))
+                except TypeError:
+                    continue
+                up = ' '.join(txt.upper().split())
+                if up.startswith('SELECT') and any(f' FROM {t} WHERE' in up for t in ('ALGORITHM', 'STATEVECTOR', 'VALUE')) and 'NAME = %S' in up:
+                    sel.append({'query': ' '.join(txt.split()), 'selects_by_version': all(w in txt for w in ('design', 'bugfix'))})
+        out[name] = sel
+    rep.extra['post_sibling_difference'] = {
+        'note': 'not a verdict: name-based id queries found in the PostgreSQL Interface._load / _update and whether their WHERE clause carries the version columns (a _load query without them ranges over all versions); cannot be exercised without a server',
+        'id_queries': out,
+    }
+
+
+def check(ctx):
+    rep = Report(
+        PID,
+        ctx.tier,
+        ctx.prog,
+        'Decides, by symbolic evaluation of db/shelve/model.py (helpers and Dataset accessors inlined) along all control paths: '
+        '(1) the prime key is (run, target, task, algorithm, state vector, value) with every level interned under the id of the previous one and with '
+        'its own name and version, and the id is the table index of the reply (comms._update_cmd -> util.append -> util.construct); '
+        '(2) _update, _update_msv and _load build that key from the own run, target, task, algorithm and a state vector / value name of it, and write / fill '
+        'exactly that item; (3) _load reads the exact key only when present, else the highest run among the entries equal in all five identity fields '
+        '(truth table of the filter, ordering on permuted samples); (4) no store into a state vector when nothing matches; '
+        '(5) lock typestate: accesses under the lock, released on every exit, not re-acquired by the nested load. '
+        'Not decided: equality of the bytes after the pickle round trip, Value.__setstate__, concrete histories, the PostgreSQL backend.',
+        assumptions=[
+            'prime keys in the table are 6-tuples (only _set_prime with the key of rule 1 writes them)',
+            'logging calls do not raise',
+            'the shelve server applies requests of one connection in order (Twisted)',
+        ],
+    )
+    rep.not_decided = [
+        '"returned unaltered": pickle round trip through db.util.encode/decode and Value.__getstate__/__setstate__',
+        'statements about concrete histories (close / reopen, removals)',
+        'server side of the upd request (Worker.do passes the KEYSET to util.append by keyword)',
+        'PostgreSQL backend: its _load selects rows by name across all versions (sibling difference reported in the thorough evidence)',
+    ]
+    fx = Facts(ctx, rep)
+    rule1(ctx, rep, fx)
+    rule2(ctx, rep, fx)
+    rule3(ctx, rep, fx)
+    rule4(ctx, rep, fx)
+    rule5(ctx, rep, fx)
+    if ctx.thorough:
+        _post_sibling(ctx, rep)
+    return rep
+
+
+_M = 'db/shelve/model.py'
+_LOOP_KEY = """levels = [
+            (task, Table.task, None),
+            (alg.name(), Table.alg, alg._get_ver()),
+            (sv.name(), Table.state, sv._get_ver()),
+            (vn, Table.value, sv[vn]._get_ver()),
+        ]
+        ids = []
+        up = None
+        for nm, tb, vr in levels:
+            up = self._update_cmd(nm, up, tb, None, vr)[1]
+            ids.append(up)
+        return (runid, trgtid, *ids)"""
+_OLD_KEY = """tid = self._update_cmd(task, None, Table.task, None, None)[1]
+        aid = self._update_cmd(
+            alg.name(), tid, Table.alg, None, alg._get_ver()
+        )[1]
+        sid = self._update_cmd(
+            sv.name(), aid, Table.state, None, sv._get_ver()
+        )[1]
+        vid = self._update_cmd(vn, sid, Table.value, None, sv[vn]._get_ver())[1]
+        return (runid, trgtid, tid, aid, sid, vid)"""
+_FILTER = 'spks = list(\n filter(lambda k, K=pk: k[1:] == K[1:], pks)\n )\n spks.sort(key=lambda t: t[0])'
+
+VARIANTS = [
+    # ---- breaking
+    V('state vector interned under the task id', 'B', _M, 'Interface.__to_key', 'sv.name(), aid, Table.state', 'sv.name(), tid, Table.state', 'R-C06-1'),
+    V('value level without its version', 'B', _M, 'Interface.__to_key', 'Table.value, None, sv[vn]._get_ver()', 'Table.value, None, None', 'R-C06-1'),
+    V('algorithm level with the state vector version', 'B', _M, 'Interface.__to_key', 'Table.alg, None, alg._get_ver()', 'Table.alg, None, sv._get_ver()', 'R-C06-1'),
+    V('target and task swapped in the key', 'B', _M, 'Interface.__to_key', 'return (runid, trgtid, tid, aid, sid, vid)', 'return (runid, tid, trgtid, aid, sid, vid)', 'R-C06-1'),
+    V('exists flag taken as the value id', 'B', _M, 'Interface.__to_key', 'sv[vn]._get_ver())[1]', 'sv[vn]._get_ver())[0]', 'R-C06-1'),
+    V('sibling id chain broken', 'B', _M, 'Interface.__refs2indices', 'svn, aid, Table.state', 'svn, tid, Table.state', 'R-C06-1'),
+    V('KEYSET fields swapped on the wire', 'B', 'db/shelve/comms.py', 'Connector._update_cmd', 'KEYSET(name, parent, ver)', 'KEYSET(name, ver, parent)', 'R-C06-1'),
+    V('append reply reordered', 'B', 'db/shelve/util.py', 'append', 'return exists, idx, name', 'return exists, name, idx', 'R-C06-1'),
+    V('writer files under run 0', 'B', _M, 'Interface._update', 'runid, tn, task = self._runid(), self._tn(), self._task()', 'runid, tn, task = 0, self._tn(), self._task()', 'R-C06-2'),
+    V('reader looks up the all-targets entry', 'B', _M, 'Interface._load', 'self._bot()._runid(),\n self._tn(),\n self._task(),\n self._alg(),\n sv,', "self._bot()._runid(),\n '__all__',\n self._task(),\n self._alg(),\n sv,", 'R-C06-2'),
+    V('metric writer stores another item', 'B', _M, 'Interface._update_msv', 'isnew = not self._set_prime(vname, msv[k])', 'isnew = not self._set_prime(vname, msv[k.lower()])', 'R-C06-2'),
+    V('fallback ignores the target', 'B', _M, 'Interface._load', 'k[1:] == K[1:]', 'k[2:] == K[2:]', 'R-C06-3'),
+    V('fallback ignores the value version id', 'B', _M, 'Interface._load', 'k[1:] == K[1:]', 'k[1:5] == K[1:5]', 'R-C06-3'),
+    V('fallback takes the lowest run', 'B', _M, 'Interface._load', 'pk = spks[-1]', 'pk = spks[0]', 'R-C06-3'),
+    V('fallback sorted descending', 'B', _M, 'Interface._load', 'spks.sort(key=lambda t: t[0])', 'spks.sort(key=lambda t: t[0], reverse=True)', 'R-C06-3'),
+    V('fallback not sorted', 'B', _M, 'Interface._load', 'spks.sort(key=lambda t: t[0])', 'pass', 'R-C06-3'),
+    V('membership test inverted', 'B', _M, 'Interface._load', 'if pk not in pks:', 'if pk in pks:', 'R-C06-3'),
+    V('emptiness test replaced', 'B', _M, 'Interface._load', 'if spks:', 'if spks is not None:', 'R-C06-3'),
+    V('store before the continue', 'B', _M, 'Interface._load', 'continue', 'sv[vn] = None\n                                continue', 'R-C06-4'),
+    V('state vector cleared when nothing matches', 'B', _M, 'Interface._load', 'continue', 'sv.clear()\n                                continue', 'R-C06-4'),
+    V('release outside finally', 'B', _M, 'Interface._update', 'finally:', 'except KeyError:\n            raise\n        if True:', 'R-C06-5'),
+    V('nested load without the lock', 'B', _M, 'Interface._load', 'err=err, ver=ver, lok=lok', 'err=err, ver=ver', 'R-C06-5'),
+    V('release decided by the wrong flag', 'B', _M, 'Interface._load', 'if parent:', 'if not parent:', 'R-C06-5'),
+    V('prime keys fetched before the lock', 'B', _M, 'Interface._update_msv', 'name = \'.\'.join([self._tn(), self._task(), self._algn()])', "name = '.'.join([self._tn(), self._task(), self._algn()])\n        self._prime_keys()", 'R-C06-5'),
+    V('fallible call between acquire and try', 'B', _M, 'Interface._update', 'valid = True', 'valid = bool(self._alg().state_vectors())', 'R-C06-5'),
+    # ---- benign
+    V('key levels computed in a loop over a table', 'N', _M, 'Interface.__to_key', _OLD_KEY, _LOOP_KEY, None),
+    V('rename candidate list', 'N', _M, 'Interface._load', 'spks', 'matching', None, occurrence='all'),
+    V('reader uses the run id accessor', 'N', _M, 'Interface._load', 'pk = self.__to_key(\n self._bot()._runid(),', 'pk = self.__to_key(\n                            self._runid(),', None),
+    V('fallback as sorted comprehension', 'N', _M, 'Interface._load', _FILTER, 'spks = sorted([k for k in pks if k[1:] == pk[1:]])', None),
+    V('fallback predicate field by field', 'N', _M, 'Interface._load', 'k[1:] == K[1:]', 'all([k[i] == K[i] for i in range(1, 6)])', None),
+    V('fallback through max', 'N', _M, 'Interface._load', 'spks.sort(key=lambda t: t[0])\n\n if spks:\n pk = spks[-1]', 'if len(spks) > 0:\n                                pk = max(spks, key=lambda t: t[0])', None),
+    V('prime keys as a frozenset', 'N', _M, 'Interface._load', 'pks = self._prime_keys()', 'pks = frozenset(self._prime_keys())', None),
+    V('logging between acquire and try', 'N', _M, 'Interface._update', 'valid = True', "valid = True\n        self._log.debug('locked for %s', name)", None),
+    V('writer arguments passed directly', 'N', _M, 'Interface._update', 'vname = self.__to_key(runid, tn, task, alg, sv, vn)', 'vname = self.__to_key(self._bot()._runid(), self._tn(), self._task(), self._alg(), sv, k)', None),
+    V('positive membership test', 'N', _M, 'Interface._load', 'if pk not in pks:', 'if not (pk in pks):', None),
+]
